@@ -211,9 +211,21 @@ Lemma learner_round_mrel : forall m order,
   MInv m -> mrel m (fst (learner_round m order)) (snd (learner_round m order)).
 Proof.
   intros m order Hi. unfold learner_round.
-  assert (H0 : mrel m (fst (m, @nil (N * attempt))) (snd (m, @nil (N * attempt)))) by (apply mrel_refl; exact Hi).
-  revert H0. generalize (m, @nil (N * attempt)). induction order as [|pid order IH]; intros a H; simpl; [exact H|].
-  apply IH. apply learner_one_mrel. exact H.
+  destruct (0 <? r_mode (s_reg (m_g m))); [simpl; apply mrel_refl; exact Hi|].
+  assert (Hplain : forall l, mrel m (fst (fold_left learner_one l (m, []))) (snd (fold_left learner_one l (m, [])))).
+  { intros l.
+    assert (H0 : mrel m (fst (m, @nil (N * attempt))) (snd (m, @nil (N * attempt)))) by (apply mrel_refl; exact Hi).
+    revert H0. generalize (m, @nil (N * attempt)). induction l as [|pid l IH]; intros a H; simpl; [exact H|].
+    apply IH. apply learner_one_mrel. exact H. }
+  destruct (s_lstart (m_g m)) as [[|]|]; try apply Hplain.
+  (* cleanAllLearners *)
+  assert (H0 : mrel m (fst (fst (m, @nil (N * attempt), false))) (snd (fst (m, @nil (N * attempt), false))))
+    by (apply mrel_refl; exact Hi).
+  revert H0. generalize (m, @nil (N * attempt), false). generalize (map fst (m_parts m)).
+  induction l as [|pid l IH]; intros a H; simpl; [exact H|].
+  apply IH. destruct a as [[m0 w0] stop]. unfold learner_clean_one. destruct stop; [exact H|].
+  simpl in H. assert (H1 := learner_one_mrel m0 (m0, []) pid (mrel_refl _ (mrel_MInv _ _ _ H))).
+  destruct (learner_one (m0, []) pid) as [m1 w1]. simpl in *. eapply mrel_trans; eassumption.
 Qed.
 
 (* ---------- one event ---------- *)
